@@ -35,12 +35,15 @@ View == <<M, S, D>>
 Emit == PrintT(<<"H", ToJson(hist')>>)
 
 (* RICH (EnvMapGenRich.cfg): breadth-first search of ONE step from populated start states.  Registers 1 and 2
-   hold every pair of non-empty key sets K1, K2 (disjoint, nested, overlapping, equal), with equal values (pat 1) or
-   with values whose joins reach top and whose meets shrink (pat 2); register 3 is top or a copy of register 1
-   (structural sharing).  hist starts as the sequence of set/add events that builds the start state, so that every
+   hold every pair of non-empty key sets K1, K2 (disjoint, nested, overlapping, equal), with equal values (pat 1),
+   with values whose joins reach top and whose meets shrink (pat 2), or with values on which widening differs from
+   join and narrowing from meet (pat 3, intervals); register 3 is top or a copy of register 1 (structural sharing).  hist starts as the sequence of set/add events that builds the start state, so that every
    printed history is a behaviour of EnvMap from Init (the validator re-derives the state from Init anyway). *)
 RichVal(r, k, pat) ==
-  IF Lat = "itv" THEN (IF pat = 1 THEN <<0, 0>> ELSE IF r = 1 THEN <<0, Inf>> ELSE IF k % 2 = 0 THEN <<-Inf, 0>> ELSE <<0, 0>>)
+  IF Lat = "itv" THEN (IF pat = 1 THEN <<0, 0>>
+                       ELSE IF pat = 2 THEN (IF r = 1 THEN <<0, Inf>> ELSE IF k % 2 = 0 THEN <<-Inf, 0>> ELSE <<0, 0>>)
+                       ELSE (IF r = 1 THEN (IF k % 2 = 0 THEN <<0, 0>> ELSE <<-1, Inf>>)     \* pat 3: widening # join and
+                             ELSE (IF k % 2 = 0 THEN <<-1, 0>> ELSE <<0, 0>>)))             \* narrowing # meet
   ELSE (IF pat = 1 \/ r = 1 THEN "T" ELSE IF k % 2 = 0 THEN "F" ELSE "T")
 FillEvents(r, ks, pat) ==
   [i \in 1..Len(ks) |-> IF GenFam = "map" THEN Ev("set", r, 0, 0, ks[i], RichVal(r, ks[i], pat), E0, E0)
@@ -48,8 +51,10 @@ FillEvents(r, ks, pat) ==
 CopyEv == Ev(IF GenFam = "map" THEN "copy" ELSE IF GenFam = "pset" THEN "pcopy" ELSE "dcopy", 3, 1, 0, 0, VTop, E0, E0)
 Filled(r, K, pat) == [bot |-> FALSE, m |-> [k \in Key |-> IF k \in K THEN RichVal(r, k, pat) ELSE VTop]]
 RichInit ==
-  \E K1, K2 \in (SUBSET Key) \ {{}}, pat \in 1..2, share \in BOOLEAN :
-     /\ (share => pat = 2)
+  \E K1, K2 \in (SUBSET Key) \ {{}}, pat \in 1..3, share \in BOOLEAN :
+     /\ (share => pat = 2 \/ GenFam # "map")
+     /\ (pat = 3 => GenFam = "map" /\ Lat = "itv")
+     /\ (pat = 2 => GenFam = "map")
      /\ hist = FillEvents(1, SortedSeq(K1), pat) \o FillEvents(2, SortedSeq(K2), pat) \o (IF share THEN <<CopyEv>> ELSE <<>>)
      /\ rnd = Len(hist)
      /\ IF GenFam = "map"
@@ -60,9 +65,13 @@ RichInit ==
              /\ M = [r \in Reg |-> MTop] /\ D = [r \in Reg |-> DSet({})]
         ELSE /\ D = [r \in Reg |-> IF r = 1 \/ (r = 3 /\ share) THEN DSet(K1) ELSE IF r = 2 THEN DSet(K2) ELSE DSet({})]
              /\ M = [r \in Reg |-> MTop] /\ S = [r \in Reg |-> {}]
+(* the binary operations (and copy) are taken from EVERY start state; the other kinds from 1 in SelMod of them *)
+BinKinds == {"join", "meet", "widen", "narrow", "copy", "punion", "punioneq", "pinter", "pintereq", "pcopy",
+             "dunion", "dinter", "ddiff", "dcopy"}
 RichNext == /\ Len(hist) = rnd
-            /\ (SelMod = 1 \/ (HistHash(hist) + SelSeed) % SelMod = 0)
-            /\ (\E kd \in FamKinds : OfKind(kd))
+            /\ \/ \E kd \in FamKinds \cap BinKinds : OfKind(kd)
+               \/ /\ (SelMod = 1 \/ (HistHash(hist) + SelSeed) % SelMod = 0)
+                  /\ \E kd \in FamKinds \ BinKinds : OfKind(kd)
             /\ rnd' = rnd
 (* results of binary operations go to register 3 (which register receives a result is irrelevant to the containers) *)
 RichEmit == LET e == hist'[Len(hist')]
